@@ -12,6 +12,24 @@ CHECKS = {
         "Trusts lib-param-bn aeon parsing / FnUpdate / function-table numbering and lib-bdd eval_in; colour validity is read from the graph; bounded to <=4 variables, <=12 parameter bits, quantifier nesting <=3.",
         "DESIGN.md section 6, C01",
     ),
+    "C02": (
+        "property-based testing (proptest) against an explicit-state reference evaluator + README equivalences as metamorphic relations",
+        "No counterexample among generated (network, extended formula, context sets) cases: results of the 4 extended entry points equal the explicit-state semantics of wild-cards and restricted domains point-wise, and both sides of the three README equivalences evaluate to identical sets for generated bodies. Exploration over bounded instances.",
+        "Trusted base of C01; context sets generated inside the unit set over state and parameter variables only (documented precondition).",
+        "DESIGN.md section 6, C02",
+    ),
+    "C03": (
+        "property-based testing (proptest): invariants on every returned set, explicit model used to select observable cases",
+        "No counterexample among generated strict-unit networks x closed plain/extended formulae: every set returned by the 12 entry points contains no (state, invalid colour) pair, is a subset of the unit set, reports counts not above the graph's, and (raw results) has a BDD support free of extra variables. Exploration.",
+        "Trusted base of C01 plus lib-bdd subset / cardinality / support operations.",
+        "DESIGN.md section 6, C03",
+    ),
+    "C13": (
+        "property-based testing (proptest) against an explicit-state reference evaluator + defining equivalences as metamorphic relations",
+        "No counterexample among generated formulae containing EW/AW: point-wise agreement with greatest-fixed-point semantics, and agreement of the tool with itself on E[phi W psi] = E[phi U psi] | EG phi, A[phi W psi] = ~E[~psi U (~phi & ~psi)], psi => phi W psi. Exploration.",
+        "Trusted base of C01.",
+        "DESIGN.md section 6, C13",
+    ),
 }
 
 PENDING_REASON = "check not built yet in this session (work in progress; see DESIGN.md section 10)"
